@@ -31,10 +31,19 @@ func someOf(c *ctx, xs []string, lo, hi int) []string {
 var ip4pool = []string{"10.0.0.1", "192.168.1.254", "8.8.8.8", "255.255.255.255", "0.0.0.0", "169.254.1.1"}
 var ipMixed = []string{"10.0.0.1", "8.8.4.4", "1.1.1.1", "2001:db8::53", "fe80::1", "::ffff:10.1.2.3", "::1", "garbage", "", "10.0.0.256", "1.2.3"}
 
+// the edges of what option 26 can carry (an unsigned 16-bit number): -1, 0, 65535, 65536, and 70000 which wraps around to 4464;
 // numbers as a configuration file may spell them: decimal (also zero-padded, signed, with blanks),
 // and spellings other parsers would take for octal, hexadecimal, digit-grouped or floating point
 var mtuPool = []string{"1500", "576", "68", "9000", "65535", "0", "-1", "65536", "70000", "abc", "", "1500 ", "0x5dc",
 	"01500", "0576", "0068", "09000", "+1500", "1_500", "0o2734", "0b101", "1500.0", "1e3", " 1500", "００"}
+
+// durations at the edges of what options 51 and 108 can carry (an unsigned 32-bit number of whole seconds): below zero,
+// zero, the last value that fits, the first that does not, one that wraps around (1193047h = 2^32 s + 1904 s), parts of a second
+var durEdge = []string{"-1s", "-1h", "0s", "4294967295s", "4294967296s", "1193047h", "100ms", "1500ms", "-100ms", "4294967295.5s"}
+
+// (first in the pools: the sweep of genPlug walks a pool from its start)
+var leasePool = append(append([]string{}, durEdge...), []string{"3600s", "1h", "1500ms", "0s", "-1h", "garbage", "100000h", "1ns", "24h", "90m", "", "3600", "1h30m", "1.5h", "01h", "+1h", "1H", "1 h", "60", "0", "1d"}...)
+var waitPool = append(append([]string{}, durEdge...), []string{"300s", "0s", "1800s", "garbage", "-5s", "1h", "", "0", "+300s", "0300s", "5m0s", "300", "1.5m"}...)
 
 var plugSpecs = []plugSpec{
 	{"dns", true, true, func(c *ctx) []string {
@@ -59,7 +68,7 @@ var plugSpecs = []plugSpec{
 		return someOf(c, []string{"255.255.255.0", "255.255.0.0", "255.255.255.255", "255.255.255.254", "128.0.0.0", "0.0.0.0", "255.0.255.0", "ffff:ff00::", "garbage", "::ffff:255.255.255.0", "255.255.255.1", ""}, 0, 2)
 	}},
 	{"lease_time", true, false, func(c *ctx) []string {
-		return someOf(c, []string{"3600s", "1h", "1500ms", "0s", "-1h", "garbage", "100000h", "1ns", "24h", "90m", "", "3600", "1h30m", "1.5h", "01h", "+1h", "1H", "1 h", "60", "0", "1d"}, 0, 2)
+		return someOf(c, leasePool, 0, 2)
 	}},
 	{"searchdomains", true, true, func(c *ctx) []string {
 		return someOf(c, []string{"example.com", "a.b.c", "sub.example.org", "x", "", "example.com.", strings.Repeat("y", 63) + ".com", strings.Repeat("z", 64) + ".com", strings.Repeat("w", 200), "..", "a..b", "exämple.com"}, 0, 3)
@@ -69,7 +78,7 @@ var plugSpecs = []plugSpec{
 			"2001:db8::/32,2001:db8::1", "10.0.0.0/8,2001:db8::1", "2001:db8::/32,10.0.0.1", "10.0.0.0/8", "10.0.0.0/8,1.2.3.4,5", "garbage,1.2.3.4", "10.0.0.0/33,1.1.1.1", "10.0.0.0/8,garbage", "::ffff:10.0.0.0/104,10.0.0.1", ","}, 0, 3)
 	}},
 	{"ipv6only", true, false, func(c *ctx) []string {
-		return someOf(c, []string{"300s", "0s", "1800s", "garbage", "-5s", "1h", "", "0", "+300s", "0300s", "5m0s", "300", "1.5m"}, 0, 2)
+		return someOf(c, waitPool, 0, 2)
 	}},
 	{"autoconfigure", true, false, func(c *ctx) []string {
 		return someOf(c, []string{"0", "1", "DoNotAutoConfigure", "AutoConfigure", "x", "", "2", "autoconfigure"}, 0, 2)
@@ -309,8 +318,8 @@ func (c *ctx) req6(own dhcpv6.DUID) string {
 var sweepAt = map[string]int{}
 var sweepPools = map[string][]string{
 	"mtu": mtuPool,
-	"lease_time": {"3600s", "1h", "1500ms", "0s", "-1h", "garbage", "100000h", "1ns", "24h", "90m", "", "3600", "1h30m", "1.5h", "01h", "+1h", "1H", "1 h", "60", "0", "1d"},
-	"ipv6only":   {"300s", "0s", "1800s", "garbage", "-5s", "1h", "", "0", "+300s", "0300s", "5m0s", "300", "1.5m"},
+	"lease_time": leasePool,
+	"ipv6only":   waitPool,
 	"netmask":    {"255.255.255.0", "255.255.0.0", "255.255.255.255", "255.255.255.254", "128.0.0.0", "0.0.0.0", "255.0.255.0", "ffff:ff00::", "garbage", "::ffff:255.255.255.0", "255.255.255.1", "", "255.255.255.00", "0xff.0xff.0xff.0", "255.255.255", "/24"},
 	"autoconfigure": {"0", "1", "DoNotAutoConfigure", "AutoConfigure", "x", "", "2", "autoconfigure", "donotautoconfigure", "01", "true"},
 	"nbp": {"tftp://10.0.0.1/boot.efi", "tftp://boot.example.com:69/pxelinux.0", "http://[2001:db8::1]/boot.ipxe", "https://host/b?params=a%20b", "http://h/x?params=", "ftp://x/y",
